@@ -62,9 +62,39 @@ func (vc *VC) execAppend(x *ssa.Call, pc string, st *State) {
 	r := vc.setVal(x, res)
 	// element addresses of the result in terms of the operand (keeps quantified facts about s[i] applicable)
 	vc.assume(and(pc, inPlace), fmt.Sprintf("(forall ((i!e Int)) (! (= (elemloc %s i!e) (elemloc %s i!e)) :pattern ((elemloc %s i!e))))", r, s, r))
+	// constant small element count (the usual `append(s, x)`): the in-place case is a ground store chain
+	constN := -1
+	if sl2, ok := args[1].(*ssa.Slice); ok && sl2.Low == nil && sl2.High == nil {
+		if al, ok := sl2.X.(*ssa.Alloc); ok {
+			if arr, ok := al.Type().Underlying().(*types.Pointer).Elem().Underlying().(*types.Array); ok && arr.Len() <= 4 {
+				constN = int(arr.Len())
+			}
+		}
+	}
 	for _, lf := range vc.enc.Leaves(et) {
 		h := lf.heap
 		old := vc.heapGet(pre, h)
+		if constN >= 0 {
+			// in place: stores; fresh: quantified copy into the new array
+			ipH := old
+			for k := 0; k < constN; k++ {
+				src := sx("select", old, pathLoc(sx("elemloc", e, fmt.Sprint(k)), lf.steps))
+				dst := pathLoc(sx("mk_loc", sx("s_arr", s), sx("+", sx("s_off", s), sx("s_len", s), fmt.Sprint(k)), "0"), lf.steps)
+				ipH = sx("store", ipH, dst, src)
+			}
+			nhf := vc.freshName(h + "!re")
+			vc.declare(nhf, fmt.Sprintf("(Array Loc %s)", vc.enc.heaps[h]))
+			p := fmt.Sprint(pathConst(lf.steps))
+			isNew := and(eq(sx("l_base", "l!a"), id), eq(sx("l_path", "l!a"), p), sx("<=", "0", sx("l_idx", "l!a")), sx("<", sx("l_idx", "l!a"), newLen))
+			newVal := ite(sx("<", sx("l_idx", "l!a"), sx("s_len", s)),
+				sx("select", old, pathLoc(sx("elemloc", s, sx("l_idx", "l!a")), lf.steps)),
+				sx("select", old, pathLoc(sx("elemloc", e, sx("-", sx("l_idx", "l!a"), sx("s_len", s))), lf.steps)))
+			vc.assume(and(pc, not(inPlace)), fmt.Sprintf("(forall ((l!a Loc)) (! (= (select %s l!a) (ite %s %s (select %s l!a))) :pattern ((select %s l!a))))", nhf, isNew, newVal, old, nhf))
+			vc.heapAlloc[nhf] = st.alloc
+			nh := vc.define(h, fmt.Sprintf("(Array Loc %s)", vc.enc.heaps[h]), ite(inPlace, ipH, nhf))
+			st.heap[h] = nh
+			continue
+		}
 		nh := vc.freshName(h)
 		vc.declare(nh, fmt.Sprintf("(Array Loc %s)", vc.enc.heaps[h]))
 		st.heap[h] = nh
@@ -90,6 +120,7 @@ func (vc *VC) execAppend(x *ssa.Call, pc string, st *State) {
 			nh, isNew("l!a"), newVal, old, nh)
 		vc.assume(and(pc, inPlace), ip)
 		vc.assume(and(pc, not(inPlace)), fr)
+		vc.heapAlloc[nh] = st.alloc
 	}
 }
 
